@@ -351,6 +351,7 @@ def run_registry(case, ctx, sched, rng):
             # remove what the trial registered
             TypeTransformer.registry._registry[:] = [e for e in TypeTransformer.registry._registry if e in before]
             TypeTransformer.registry._cache.pop(mod.Tag, None)
+            _S["where"] = [list(w) for w in sched.where]
             return res, list(sched.trace), list(sched.steps), set(sched.locations)
         finally:
             drop_module(mod)
@@ -396,6 +397,7 @@ def run_registry(case, ctx, sched, rng):
         return True
 
     res, trace, steps, locs = trial({})
+    where = _S.get("where") or [[], []]
     if not judge(res, trace, "controlled", None):
         return
     plans = []
@@ -403,11 +405,15 @@ def run_registry(case, ctx, sched, rng):
         ks = list(range(1, steps[a] + 1))
         cap = 40 if tier == "quick" else 400
         if len(ks) > cap:
-            ks = [ks[int(i * len(ks) / cap)] for i in range(cap)]
+            # the registry's own lines first (every one of them), the rest evenly spread
+            reg = [k for k in ks if k - 1 < len(where[a]) and where[a][k - 1].endswith("utils/base.py")]
+            rest = [k for k in ks if k not in set(reg)]
+            room = max(0, cap - len(reg))
+            ks = reg[:cap * 3] + ([rest[int(i * len(rest) / room)] for i in range(room)] if room and rest else [])
         plans += [({(a, k): b}, a) for k in ks]
     if tier == "quick":
         rng.shuffle(plans)
-        plans = plans[:60]
+        plans = plans[:120]
     for plan, first in plans:
         res, trace, _s, l2 = trial(plan, first=first)
         locs |= l2
